@@ -548,18 +548,88 @@ class GenFlow:
         return out
 
 
-def render_package(flows, ntypes):
+EXT_HELPERS = '''package gen
+
+import (
+	"fmt"
+
+	ashape "example.com/vgen/gen/a/shape"
+	bshape "example.com/vgen/gen/b/shape"
+)
+
+func MkA() *ashape.T           { return &ashape.T{S: "a"} }
+func UseA(v *ashape.T) string  { return "A:" + v.S }
+func MkB() *bshape.T           { return &bshape.T{N: 7} }
+func UseB(v *bshape.T) float64 { return float64(v.N) }
+func Show(v interface{}) string { return fmt.Sprint(v) }
+'''
+
+EXT_FLOWS = '''//go:build cff
+
+package gen
+
+import (
+	"go.uber.org/cff"
+)
+
+// two directives in one file, each needing a package the file does not import;
+// the two packages have the same name
+func ExtA(x *Exec, conc int) ([]string, error) {
+	var out string
+	err := cff.Flow(x.Ctx, cff.Params(MkA()), cff.Results(&out), cff.Task(UseA))
+	return []string{out}, err
+}
+
+func ExtB(x *Exec, conc int) ([]string, error) {
+	var out float64
+	err := cff.Flow(x.Ctx, cff.Params(MkB()), cff.Results(&out), cff.Task(UseB))
+	return []string{Show(out)}, err
+}
+'''
+
+VARIANTS = ["plain", "cffalias", "timealias", "generic", "ctxalias"]
+
+
+def render_package(flows, ntypes, variants=True):
+    """The package: runtime, types, and the directives, several per file. With variants,
+    the files differ in how they spell their surroundings: cff or context imported under
+    another name, time imported under another name, directives inside generic functions."""
     files = {}
     files["rt.go"] = RT_GO
     files["errclass.go"] = ERRCLASS_GO.replace("errCanceled", "context.Canceled").replace('import (\n\t"errors"', 'import (\n\t"context"\n\t"errors"')
     files["types.go"] = "package gen\n\n" + "\n".join("type T%d struct{ S string }" % t for t in range(ntypes)) + "\n"
-    # several directives per file
     per = 4
     for k in range(0, len(flows), per):
-        src = ["//go:build cff", "", "package gen", "", "import (", '\t"context"', "", '\t"go.uber.org/cff"', ")", "", "var _ context.Context", ""]
+        var = VARIANTS[(k // per) % len(VARIANTS)] if variants else "plain"
+        imports = ['\t"context"', "", '\t"go.uber.org/cff"']
+        tail = ["var _ context.Context", ""]
+        if var == "cffalias":
+            imports = ['\t"context"', "", '\tcffx "go.uber.org/cff"']
+        elif var == "timealias":
+            imports = ['\t"context"', '\ttm "time"', "", '\t"go.uber.org/cff"']
+            tail = ["var _ context.Context", "var _ = tm.Second", ""]
+        elif var == "ctxalias":
+            imports = ['\tctxpkg "context"', "", '\t"go.uber.org/cff"']
+            tail = ["var _ ctxpkg.Context", ""]
+        src = ["//go:build cff", "", "package gen", "", "import ("] + imports + [")", ""] + tail
         for f in flows[k:k + per]:
-            src.append(f.render())
+            txt = f.render()
+            if var == "cffalias":
+                txt = txt.replace("cff.", "cffx.")
+            elif var == "ctxalias":
+                txt = txt.replace("context.", "ctxpkg.")
+            elif var == "generic":
+                n = f.name()
+                head = "func %s(x *Exec, conc int) ([]string, error) {" % n
+                txt = txt.replace(head, "%s\n\treturn %sg[struct{}](x, conc)\n}\n\nfunc %sg[Z any](x *Exec, conc int) ([]string, error) {" % (head, n[0].lower() + n[1:], n[0].lower() + n[1:]), 1)
+            src.append(txt)
         files["flows%02d.go" % (k // per)] = "\n".join(src)
+    if variants:
+        # types from packages the cff file does not import, with colliding package names
+        files["a/shape/shape.go"] = "package shape\n\ntype T struct{ S string }\n"
+        files["b/shape/shape.go"] = "package shape\n\ntype T struct{ N int }\n"
+        files["exthelpers.go"] = EXT_HELPERS
+        files["flowsext.go"] = EXT_FLOWS
     return files
 
 
@@ -596,7 +666,7 @@ def gen_flows(seed, n, rich=True):
     flows = []
     ntypes = 0
     while len(flows) < n:
-        base = flowgen.gen_wellformed(r, max_tasks=6)
+        base = flowgen.gen_wellformed(r, max_tasks=6) if rich else flowgen.gen_wellformed(r, max_tasks=6, pred_prob=0.0, invoke_prob=0.0)
         gf = GenFlow(len(flows), base, r, rich=rich)
         flows.append(gf)
         ntypes = max(ntypes, base.ntypes)
